@@ -259,6 +259,14 @@ func c14Families(tier string) []engine.Family {
 		{"[]interface<-array", func() reflect.Value { return reflect.New(reflect.SliceOf(tIfc)) }, arr},
 		{"**Inner<-object", func() reflect.Value { return reflect.New(reflect.PtrTo(reflect.PtrTo(gen.Inner))) }, []model.Event{model.ObjStart(-1, 0), model.KeyRef("x"), model.SInt(model.KInt8, 1), model.KeyRef("s"), model.StrRef("v"), model.ObjEnd()}},
 		{"[]int<-mismatch", func() reflect.Value { return reflect.New(reflect.SliceOf(reflect.TypeOf(0))) }, []model.Event{model.ArrStart(-1, 0), model.SInt(model.KInt8, 1), model.StrRef("boom"), model.ArrEnd()}},
+		// reflected maps and slices of structs whose elements set different subsets of their fields
+		{"map[string]Inner<-two-elements", func() reflect.Value { return reflect.New(reflect.MapOf(reflect.TypeOf(""), gen.Inner)) },
+			[]model.Event{model.ObjStart(2, 0), model.KeyRef("p"), model.ObjStart(-1, 0), model.KeyRef("x"), model.SInt(model.KInt8, 1), model.KeyRef("s"), model.StrRef("a"), model.ObjEnd(),
+				model.KeyRef("q"), model.ObjStart(-1, 0), model.KeyRef("s"), model.StrRef("b"), model.ObjEnd(), model.ObjEnd()}},
+		{"map[string]Inner<-partial-element", func() reflect.Value { return reflect.New(reflect.MapOf(reflect.TypeOf(""), gen.Inner)) },
+			[]model.Event{model.ObjStart(-1, 0), model.KeyRef("r"), model.ObjStart(-1, 0), model.KeyRef("s"), model.StrRef("c"), model.ObjEnd(), model.ObjEnd()}},
+		{"map[string]*Inner<-object", func() reflect.Value { return reflect.New(reflect.MapOf(reflect.TypeOf(""), reflect.PtrTo(gen.Inner))) },
+			[]model.Event{model.ObjStart(-1, 0), model.KeyRef("r"), model.ObjStart(-1, 0), model.KeyRef("x"), model.SInt(model.KInt8, 3), model.ObjEnd(), model.KeyRef("n"), model.Nil(), model.ObjEnd()}},
 	}
 	// ops: (doc, cut k) for every k including the complete document
 	type op struct {
@@ -270,7 +278,7 @@ func c14Families(tier string) []engine.Family {
 			ops = append(ops, op{di, k})
 		}
 	}
-	followUps := []int{0, 2, 3, 5}
+	followUps := []int{0, 2, 3, 5, 8, 9}
 	skip := map[string]bool{"reg": true, "userReg": true, "keyCache": true}
 	m := &engine.BFSModel{Name: "gotype.Unfolder(abandon+Reset)", NumOps: len(ops) + len(followUps),
 		OpName: func(i int) string {
